@@ -86,7 +86,32 @@ def _c19_interval(shape, args, ctx):
                 f'interval={w!r}: sampled at {seen[:9]} instead of {want[:9]}')
 
 
-KINDS = {'c12_residue': _c12_residue, 'c19_interval': _c19_interval}
+def _c09_residue(shape, args, ctx):
+    """Pool r of capacity C; reservations of a and b are taken and released again (a first if shape['first']=='a').  With
+    nothing outstanding the usage must be 0 (= the sum over outstanding reservations) and a request for the whole capacity
+    must be granted (it fits into capacity minus usage)."""
+    from simprocesd.model import System
+    a, b, cap = args['a'], args['b'], args['cap']
+    system = System()
+    system.simulate(0, print_summary=False)
+    rm = system.resource_manager
+    rm.add_resources('r', cap)
+    ra = rm.reserve_resources({'r': a})
+    rb = rm.reserve_resources({'r': b})
+    ctx.require(ra is not None and rb is not None, 'a reservation that fits was refused', f'cap={cap!r} a={a!r} b={b!r}')
+    ctx.goal('two_reservations_outstanding')
+    for r in ((ra, rb) if shape.get('first', 'a') == 'a' else (rb, ra)):
+        r.release()
+    usage = rm.get_resource_usage('r')
+    rx = rm.reserve_resources({'r': cap})
+    ctx.require(usage == 0, 'usage of a resource differs from the sum of the amounts held by outstanding reservations (float residue)',
+                f'pool of capacity {cap!r}: reservations of {a!r} and {b!r} were taken and released in full, nothing is outstanding, '
+                f'usage is {usage!r}; a request for the whole capacity is then ' + ('granted' if rx is not None else 'REFUSED'))
+    ctx.require(rx is not None, 'a reservation that fits into capacity minus usage was refused',
+                f'idle pool of capacity {cap!r} (usage {usage!r} after releasing {a!r} and {b!r}) refused a request for {cap!r}')
+
+
+KINDS = {'c09_residue': _c09_residue, 'c12_residue': _c12_residue, 'c19_interval': _c19_interval}
 
 
 def run(shape, args, ctx):
